@@ -121,6 +121,66 @@ def corrupt_each_byte_case(pr):
     return None
 
 
+def _truncate_by(k):
+    def op(pr):
+        for f in [f for f in glob.glob(pr.path(".zinoma/**"), recursive=True) if os.path.isfile(f)]:
+            data = open(f, "rb").read()
+            with open(f, "wb") as h:
+                h.write(data[: max(0, len(data) - k)])
+        pr.commands.append("cut the last %d byte(s) off every file under .zinoma" % k)
+        pr.edit("src/a.txt", "a2")
+    return op
+
+
+def odd_timestamps_case(pr):
+    """declared files dated before 1970, at the epoch, far in the future: a rewrite is still a change"""
+    pr.write("src/old.txt", "first version")
+    pr.write("src/other.txt", "o")
+    pr.write("zinoma.yml", yml({"t": _t([{"paths": ["src"]}], [{"paths": ["out.txt"]}], body="cat src/old.txt > out.txt")}))
+    for (t1, t2, what) in ((-86400 * 400, -86400 * 300, "before 1970"), (0, 1, "at the epoch"), (4102444800, 4102444900, "in the year 2100")):
+        try:
+            os.utime(pr.path("src/old.txt"), (t1, t1))
+        except (OSError, OverflowError):
+            continue
+        pr.remove(".zinoma")
+        _run_ok(pr, "t")
+        pr.clear_log()
+        _run_ok(pr, "t")
+        with open(pr.path("src/old.txt"), "w") as f:
+            f.write("rewritten %s" % what)
+        os.utime(pr.path("src/old.txt"), (t2, t2))
+        pr.commands.append("rewrite src/old.txt and date it %s (%d)" % (what, t2))
+        pr.clear_log()
+        r = pr.run("t")
+        if r.rc != 0 or not _ran(pr):
+            return {"property": "C02", "expected": "src/old.txt (dated %s) was rewritten with another content and another date: the script runs" % what, "observed": "exit %s, script ran %s" % (r.rc, _ran(pr)), "zinoma": r.brief()}
+    return None
+
+
+def touch_then_rerun_case(pr):
+    """a file rewritten with identical content (new modification time): the target stays skipped, on that invocation and
+    on the following ones"""
+    pr.write("src/a.txt", "same")
+    pr.write("src/b.txt", "b")
+    pr.write("lib.txt", "l")
+    prod = _t(None, [{"paths": ["gen.txt"]}], name="prod", body="echo constant > gen.txt")     # no input: regenerates the same output every run
+    cons = _t([{"paths": ["src"]}, "prod.output"], [{"paths": ["out.txt"]}], name="cons", body="cat src/a.txt > out.txt")
+    pr.write("zinoma.yml", yml({"prod": prod, "cons": cons}))
+    _run_ok(pr, "cons")
+    for rep in range(2, 7):
+        if rep % 2 == 0:
+            with open(pr.path("src/a.txt"), "w") as f:
+                f.write("same")
+            st = os.stat(pr.path("src/a.txt"))
+            os.utime(pr.path("src/a.txt"), ns=(st.st_atime_ns, st.st_mtime_ns + 7_000_000))
+            pr.commands.append("rewrite src/a.txt with the same content")
+        pr.clear_log()
+        r = _run_ok(pr, "cons")
+        if "s cons" in pr.log():
+            return {"property": "C03", "expected": "invocation %d: nothing cons declares has changed in content (src/a.txt and gen.txt are rewritten identically): cons is skipped" % rep, "observed": "cons ran; log %s" % pr.log(), "zinoma": r.brief()}
+    return None
+
+
 def no_input_case(pr):
     pr.write("zinoma.yml", yml({"t": _t(None, [{"paths": ["out.txt"]}], body="echo x > out.txt")}))
     for i in range(3):
@@ -446,7 +506,7 @@ def overlapping_resources_case(pr):
     r = pr.run("cons")
     c03 = None
     if pr.log():
-        c03 = {"property": "C03", "expected": "unchanged tree: prod and cons (whose resources overlap: src and src/sub, gen and prod.output) are skipped", "observed": "log %s" % pr.log(), "zinoma": r.brief()}
+        c03 = {"property": ["C03", "C13"], "expected": "unchanged tree: prod and cons (whose resources overlap: src and src/sub, gen and prod.output) are skipped", "observed": "log %s" % pr.log(), "zinoma": r.brief()}
     pr.remove("src/extra.txt")           # a declared file that is listed once
     pr.clear_log()
     r = pr.run("cons")
@@ -1066,6 +1126,27 @@ def unrelated_failure_does_not_lose_record_case(pr):
     return None
 
 
+def derived_only_inputs_case(pr):
+    """pack's only inputs are lib::gen.output; gen is rebuilt in another invocation (from lib's own directory): the next
+    request for pack rebuilds it"""
+    pr.write("lib/src.txt", "one")
+    pr.write("lib/zinoma.yml", yml({"gen": _t([{"paths": ["src.txt"]}], [{"paths": ["gen.txt"]}], name="gen", body="cat src.txt > gen.txt")}, name="lib"))
+    pr.write("app/zinoma.yml", yml({"pack": _t(["lib::gen.output"], [{"paths": ["pack.txt"]}], name="pack", body="cat ../lib/gen.txt > pack.txt")}, name="app", imports={"lib": "../lib"}))
+    app, lib = pr.path("app"), pr.path("lib")
+    _run_ok(pr, "pack", cwd=app)
+    pr.clear_log()
+    _run_ok(pr, "pack", cwd=app)
+    if pr.log():
+        return None
+    pr.edit("lib/src.txt", "two-longer")
+    _run_ok(pr, "gen", cwd=lib)             # gen is rebuilt on its own
+    pr.clear_log()
+    r = _run_ok(pr, "pack", cwd=app)
+    if "s pack" not in pr.log() or (pr.read("app/pack.txt") or "").strip() != "two-longer":
+        return {"property": ["C18", "C13", "C02"], "expected": "lib::gen was rebuilt (from lib's own directory) and its output changed: pack, whose only input is lib::gen.output, runs", "observed": "log %s, pack.txt = %r" % (pr.log(), (pr.read("app/pack.txt") or "").strip()), "zinoma": r.brief()}
+    return None
+
+
 def cases(seed, tier="quick"):
     C = lambda n, fn, what: Case("incr", n, fn, what)
     out = [
@@ -1099,6 +1180,9 @@ def cases(seed, tier="quick"):
         C("symlink-alias", symlink_alias_case, "a link to a file that is listed too"),
         C("xoutput-symlink", xoutput_symlink_case, "a producer publishing its output as a link"),
         C("unrelated-failure-keeps-record", unrelated_failure_does_not_lose_record_case, "an unrelated failure while T records its outputs"),
+        C("odd-timestamps", odd_timestamps_case, "files dated before 1970, at the epoch, in 2100"),
+        C("touch-then-rerun", touch_then_rerun_case, "identical rewrites over six invocations"),
+        C("derived-only-inputs", derived_only_inputs_case, "a target whose only inputs are X.output, X rebuilt elsewhere"),
         C("dep-without-input", dep_without_input_case, "dependent of an always-executed target"),
         C("big-cmd-output", big_cmd_output_case, "a command printing 300 kB"),
         C("config-edit-between-runs", config_edit_between_runs_case, "input removed and restored in the project file around a failed build"),
@@ -1128,6 +1212,8 @@ def cases(seed, tier="quick"):
         C("sibling-import", sibling_import_case, "import through .. and through a symbolic link"),
         C("shared-file-two-targets", shared_file_case, "a file regenerated by one target and read by another"),
     ]
+    for k in (1, 2, 3, 5, 8, 9, 10, 12, 16):
+        out.append(C("truncate-%d" % k, skip_then("cut the last %d byte(s) off the state file + edit src/a.txt" % k, _truncate_by(k), True, "C05"), "record cut short by %d byte(s): rebuild, exit 0" % k))
     for kind in ("truncate", "empty", "garbage", "huge-length"):
         out.append(C("corrupt-" + kind, skip_then("corrupt state (%s) + edit src/a.txt" % kind, _corrupt(kind), True, "C05"), "corrupted record: rebuild, exit 0"))
     for sig in ("KILL", "TERM"):
